@@ -403,6 +403,96 @@ def hand_written(toks, rel, in_test, hand, cross, orphans):
                 orphans.append({"file": rel, "fn": stem, "line": toks[k][1], "test": is_test})
 
 
+def strip_flavour(t):
+    if IDENT.fullmatch(t):
+        if t.startswith("Async") and len(t) > 5:
+            return t[5:]
+        if t.startswith("Sync") and len(t) > 4:
+            return t[4:]
+    return t
+
+
+def trait_impls(toks, rel, in_test, out):
+    """Every `impl TRAIT for TYPE { … }` of the file with the methods it defines (name, body)."""
+    k, n = 0, len(toks)
+    # utils/test.rs, utils/test_signer.rs: test utilities
+    path_test = "tests/" in rel or rel.startswith("tests") or rel.startswith("utils/test")
+    while k < n:
+        if toks[k][0] != "impl":
+            k += 1
+            continue
+        j = k + 1
+        if j < n and toks[j][0] == "<":
+            d = 0
+            while True:
+                if toks[j][0] == "<":
+                    d += 1
+                elif toks[j][0] == ">" and toks[j - 1][0] != "-":
+                    d -= 1
+                    if d == 0:
+                        j += 1
+                        break
+                j += 1
+        h0 = j
+        while j < n and toks[j][0] not in ("{", ";"):
+            j = match_group(toks, j, rel) + 1 if toks[j][0] in ("(", "[") else j + 1
+        if j >= n or toks[j][0] == ";":
+            k = j + 1
+            continue
+        header = [x[0] for x in toks[h0:j]]
+        be = match_group(toks, j, rel)
+        if "for" in header:
+            fi = header.index("for")
+            trait, ty = header[:fi], header[fi + 1:]
+            if "where" in ty:
+                ty = ty[:ty.index("where")]
+            methods, m = [], j + 1
+            while m < be:
+                if toks[m][0] == "{":
+                    m = match_group(toks, m, rel) + 1
+                    continue
+                if toks[m][0] == "fn" and IDENT.fullmatch(toks[m + 1][0]):
+                    _, body = fn_item(toks, m, rel)
+                    if body:
+                        methods.append((toks[m + 1][0], [x[0] for x in toks[body[0]:body[1]]]))
+                        m = body[1] + 1
+                        continue
+                m += 1
+            out.append({"file": rel, "line": toks[k][1], "trait": trait, "type": ty, "methods": methods,
+                        "test": path_test or in_test(k)})
+        k = j + 1
+
+
+def pair_impls(impls):
+    """Pair `impl AsyncT for AsyncX` with `impl T for X` (flavour prefixes `Async`/`Sync` of the
+    identifiers of trait and type erased; `_async` suffix of method names erased)."""
+    key = lambda i: (" ".join(strip_flavour(x) for x in i["trait"]), " ".join(strip_flavour(x) for x in i["type"]))
+    is_async = lambda i: any(x.startswith("Async") and strip_flavour(x) != x for x in i["trait"] + i["type"])
+    groups = {}
+    for i in impls:
+        groups.setdefault((key(i), i["test"]), []).append(i)
+    pairs, async_only = [], []
+    unsfx = lambda nm: nm[:-6] if nm.endswith("_async") and len(nm) > 6 else nm
+    for (k, test), v in sorted(groups.items()):
+        a = [i for i in v if is_async(i)]
+        sy = [i for i in v if not is_async(i)]
+        if not a:
+            continue
+        if not sy:
+            async_only += [(i["file"], k[0], k[1], test) for i in a]
+            continue
+        if len(a) > 1 or len(sy) > 1:
+            if test:
+                continue
+            fail(f"{a[0]['file']}:{a[0]['line']}: ambiguous sync/async impl pair {k}")
+        am = {unsfx(nm): b for nm, b in a[0]["methods"]}
+        sm = {nm: b for nm, b in sy[0]["methods"]}
+        pairs.append({"file": a[0]["file"], "trait": k[0], "type": k[1], "test": test,
+                      "syncMethods": sorted(sm), "asyncMethods": sorted(am),
+                      "methods": [] if test else [(nm, sm[nm], am[nm]) for nm in sorted(set(sm) & set(am))]})
+    return pairs, sorted(set(async_only))
+
+
 RAW_ATTR = re.compile(r"^[ \t]*#[ \t]*\[[ \t]*async_generic\b", re.M)
 
 
@@ -444,11 +534,12 @@ def main():
     h = hashlib.sha256()
     sites_out, sigs_out, fn_count = [], [], {}
     fn_rows, hand, cross, orphans = [], [], [], []
+    impls = []
     total_sync_tokens = 0
     raw_attr_count = 0
     for path in files:
         text = open(path, errors="replace").read()
-        if "_sync" not in text and "async_generic" not in text and "_async" not in text:
+        if "_sync" not in text and "async_generic" not in text and "_async" not in text and "Async" not in text:
             continue
         rel = os.path.relpath(path, SRC)
         toks = tokenize(text, rel)
@@ -467,6 +558,7 @@ def main():
                 if not (is_attr or is_use):
                     fail(f"{rel}:{ln}: `async_generic` used in a form this translator does not know")
         hand_written(toks, rel, in_test, hand, cross, orphans)
+        trait_impls(toks, rel, in_test, impls)
         covered = []  # token ranges of attributed function bodies
         i = 0
         while i < len(toks):
@@ -566,6 +658,12 @@ def main():
     hand.sort(key=lambda r: (r["file"], r["fn"], r["idx"]))
     fn_rows.sort(key=lambda r: (r["file"], r["line"]))
 
+    impl_pairs, async_only_impls = pair_impls(impls)
+    for r in impl_pairs:
+        h.update(("impl:" + r["trait"] + "|" + r["type"] + "|" + ",".join(r["syncMethods"]) + "|" + ",".join(r["asyncMethods"]) +
+                  "|".join(nm + " ".join(a) + "/" + " ".join(b) for nm, a, b in r["methods"])).encode())
+    h.update(repr(async_only_impls).encode())
+
     reads, writes = settings_side_condition()
     h.update(("settings:" + ",".join(reads) + "|" + ",".join(writes)).encode())
 
@@ -597,6 +695,13 @@ def main():
 
     def triple_rows(rows):
         return "[" + (",\n  ".join("(" + lean_str(a) + ", " + lean_str(b) + ", " + lean_bool(c) + ")" for a, b, c in rows)) + "]"
+
+    def impl_row(r):
+        ms = ",\n      ".join("{ name := " + lean_str(nm) + ", syncBody := " + lean_toks(a) + ", asyncBody := " + lean_toks(b) + " }"
+                             for nm, a, b in r["methods"])
+        return ("  { file := " + lean_str(r["file"]) + ", traitName := " + lean_str(r["trait"]) + ", ty := " + lean_str(r["type"]) +
+                f", test := {lean_bool(r['test'])},\n    syncMethods := " + lean_list(r["syncMethods"]) + ", asyncMethods := " +
+                lean_list(r["asyncMethods"]) + ",\n    methods := [" + ms + "] }")
 
     # split the table into chunks so that no single definition is huge
     CH = 12
@@ -646,6 +751,14 @@ def handPairs : List HandPair := [
 def crossScope : List (String × String × Bool) := {triple_rows(cross_rows)}
 /-- `fn X_async` without any `fn X` in its file: (file, X, test) -/
 def asyncOrphans : List (String × String × Bool) := {triple_rows(orphan_rows)}
+
+/-- every pair `impl T for X` / `impl AsyncT for AsyncX` (flavour prefixes erased): the method
+names each impl block defines (`_async` suffix erased) and both bodies of the common ones -/
+def implPairs : List ImplPair := [
+{(","+chr(10)).join(impl_row(r) for r in impl_pairs)}
+]
+/-- `impl AsyncT for X` without a synchronous counterpart: (file, T, X, test) -/
+def asyncOnlyImpls : List (String × String × String × Bool) := [{", ".join("(" + lean_str(a) + ", " + lean_str(b) + ", " + lean_str(c) + ", " + lean_bool(d) + ")" for a, b, c, d in async_only_impls)}]
 /-- number of `_sync` tokens in sdk/src (every one is accounted for by a site) -/
 def syncTokenCount : Nat := {total_sync_tokens}
 
@@ -661,6 +774,7 @@ end C2pa.C40.Gen
             "signatures": len(sigs_out), "functions": sum(fn_count.values()), "attr_scan": raw_attr_count,
             "hand_pairs": [f"{r['file']}:{r['fn']}" for r in hand if not r["test"]],
             "hand_pairs_test": sum(1 for r in hand if r["test"]),
+            "impl_pairs": len(impl_pairs), "async_only_impls": len(async_only_impls),
             "cross_scope": len(cross_rows), "async_orphans": [f"{a}:{b}" for a, b, c in orphan_rows if not c],
             "test_sites": sum(1 for s in sites_out if s["test"]),
             "cose_sign_settings_reads": reads, "adjusted_settings_writes": writes,
